@@ -10,7 +10,7 @@ from __future__ import annotations
 import numpy as np
 
 from .. import boson, circmon, emumon
-from ..gen import Builder, equivalent_variant
+from ..gen import Builder, equivalent_variant, herald_in_place
 from .common import drain_into, merge_stats, setup, too_big
 
 PROPERTY = "C03"
@@ -22,7 +22,8 @@ RULE = ("seeded random circuits (trees with heralded sub-circuits, directly decl
 MANDATORY = ["bunched_input", "vacuum_input", "herald_in_ne_out", "herald_photons", "lossy",
              "explicit_outputs", "input_list", "reject_wrong_length", "reject_negative",
              "reject_noninteger", "reject_bool", "reject_photon_mismatch", "reject_nonstate",
-             "simulator_reused_after_change", "five_or_more_photons", "seven_or_more_modes", "same_call_repeated"]
+             "simulator_reused_after_change", "five_or_more_photons", "seven_or_more_modes", "same_call_repeated",
+             "herald_declared_in_place"]
 DECIDING = ["mon.sim_postconditions", "mon.sim_amplitudes_checked", "rejections_checked"]
 BUDGET = {"quick": 25, "thorough": 420}
 ASSUMPTIONS = ["reference amplitude = own Glynn permanent over the circuit's own U_full and heralds "
@@ -185,7 +186,11 @@ def run(ctx):
                 outs = [State(random_state(rng, k, nph)) for _ in range(int(rng.integers(1, 6)))]
                 if rng.random() < 0.3:
                     outs.append(outs[0])
-            bunched = any(max(s.s, default=0) > 1 for s in ins) or (outs and any(max(s.s, default=0) > 1 for s in outs))
+            if outs is not None and len(outs) == 1 and rng.random() < 0.5:
+                outs = outs[0]                      # a single State instead of a list
+                ctx.bucket("outputs_single_state")
+            outs_l = [outs] if (outs is not None and not isinstance(outs, list)) else outs
+            bunched = any(max(s.s, default=0) > 1 for s in ins) or (outs_l and any(max(s.s, default=0) > 1 for s in outs_l))
             if bunched: ctx.bucket("bunched_input")
             if nph == 0: ctx.bucket("vacuum_input")
             if ne: ctx.bucket("herald_in_ne_out")
@@ -193,7 +198,7 @@ def run(ctx):
             if lossy: ctx.bucket("lossy")
             if outs is not None: ctx.bucket("explicit_outputs")
             if isinstance(arg_in, list): ctx.bucket("input_list")
-            case = {"circuit": log, "inputs": [s.s for s in ins], "outputs": None if outs is None else [s.s for s in outs]}
+            case = {"circuit": log, "inputs": [s.s for s in ins], "outputs": None if outs is None else [s.s for s in outs_l]}
             try:
                 r1 = sim.simulate(arg_in, outs)
                 if rng.random() < 0.3:
@@ -215,7 +220,12 @@ def run(ctx):
             # the same long-lived Simulator after the circuit was edited in place / replaced
             try:
                 nn = c.n_modes - len(c._internal_modes)
-                if rng.random() < 0.5:
+                r_re = rng.random()
+                if r_re < 0.35 and herald_in_place(c, rng):
+                    k = c.input_modes
+                    log.append(["herald_declared_in_place"])
+                    ctx.bucket("herald_declared_in_place")
+                elif r_re < 0.6:
                     c.ps(int(rng.integers(nn)), 1.234)
                     if nn >= 2:
                         c.bs(0, 1, 0.3, float(rng.choice([0, 0.2])))
